@@ -394,9 +394,10 @@ def life_set(l: str, p: Dict[str, int], f: str, v: int) -> Dict[str, int]:
 
 def life_build(real: Real, l: str, p: Dict[str, int], style: str) -> Dict[str, Any]:
     """A brand-new dictionary for the abstract description p. style 'mps': the activation precision is the entry
-    'in_precision' only (what MPS layers pass); 'diana': 'a_precision' only (what diana's own unit test passes)."""
+    'in_precision' only (what MPS layers pass); 'both': 'in_precision' and diana's 'a_precision', kept equal by the owner."""
     sp = real.spec({"l": l}, p)
-    del sp["a_precision" if style == "mps" else "in_precision"]
+    if style == "mps":
+        del sp["a_precision"]
     return sp
 
 
@@ -406,7 +407,7 @@ def life_keys(l: str, f: str, style: str) -> List[str]:
             "cout": ["out_features" if lin else "out_channels", "output_shape"],
             "c": ["in_channels", "out_channels", "groups", "output_shape"],
             "k": ["kernel_size"], "o": ["output_shape"], "w": ["w_precision"],
-            "a": ["in_precision" if style == "mps" else "a_precision"], "b": ["_parameters"]}[f]
+            "a": ["in_precision"] if style == "mps" else ["in_precision", "a_precision"], "b": ["_parameters"]}[f]
 
 
 def _snap(x: Any) -> Any:
@@ -428,7 +429,7 @@ def _frame(before: Dict[str, Any], after: Dict[str, Any]) -> str:
     changed = sorted(k for k in set(before) & set(after) if before[k] != after[k])
     out = []
     if added:
-        out.append("added " + ",".join(f"{k}={after[k][-1] if isinstance(after[k], tuple) else '...'}" for k in added))
+        out.append("added " + ",".join(f"{k}={after[k][3] if isinstance(after[k], tuple) and after[k][0] == 'tensor' else after[k][-1] if isinstance(after[k], tuple) else '...'}" for k in added))
     if removed:
         out.append("removed " + ",".join(removed))
     if changed:
@@ -645,7 +646,7 @@ def run(tier: str, seed: int, replay=None) -> int:
         "one of the exact quotient' (DivAndCeilSTE(16.5, 16) = 1, FloorSTE(4.5, 4) = 1 are accepted)",
         "tolerances: MPIC cycles 2/16000 cycle, MPIC energy relative 1e-6, DIANA 1/160 cycle; all other models exact",
         "histories: the shared description is built like an MPS layer's (activation precision under 'in_precision' only; thorough "
-        "also diana's 'a_precision' style); field writes replace dictionary entries (bias: inside the nested '_parameters' dict)",
+        "also descriptions that carry diana's 'a_precision' as well); field writes replace dictionary entries (bias: inside the nested '_parameters' dict)",
         "NE16 does not declare a weight-precision restriction (w = 3, 16 accepted, w = 0 returns 0 before any check): not claimed",
     ]
     real = Real()
@@ -664,30 +665,41 @@ def run(tier: str, seed: int, replay=None) -> int:
     life_dumps: List[Tuple[str, int, int]] = []
     life_ready = threading.Event()
 
-    def _design() -> None:
+    # two background threads, each with its OWN Run object for the bookkeeping (merged below; no shared counters)
+    RA, RB = Run("C16", tier, seed), Run("C16", tier, seed)
+
+    def _design_life() -> None:
         try:
             # histories on one shared description: enumerated first, the dump is replayed by the main thread
             for cfg, maxlen in life_cfgs:
                 dot = tempfile.mktemp(prefix="c16-life-", suffix=".dot", dir=tlc.scratch())
-                res = R.design("CostLifeMC", cfg, workers=4, dump_dot=dot, timeout=3000)
+                res = RA.design("CostLifeMC", cfg, workers=4, dump_dot=dot, timeout=3000)
                 life_dumps.append((dot, maxlen, res.distinct))
             life_ready.set()
             # sanity: the three impure variants and "no evaluation is ever rejected" must FAIL
             for cfg in ("CostLifeMC_setdefault", "CostLifeMC_memo_id", "CostLifeMC_pop", "CostLifeMC_rejects"):
-                R.design("CostLifeMC", cfg, expect_ok=False, workers=2)
-            for i, cfg in enumerate(QUICK_DESIGN if tier == "quick" else THOROUGH_DESIGN):
-                R.design("CostModelsMC", cfg, workers=8, coverage=(i == 0),
-                         require_cov=[f"CostModelsMC!{a}" for a in grow] if i == 0 else (), timeout=6000)
+                RA.design("CostLifeMC", cfg, expect_ok=False, workers=2)
             # non-vacuity: the grids reach the plateaus of the tile functions -> the strict property must fail;
             # for fractional arguments the ceiling idioms are not exact ceilings -> that invariant must fail
-            R.design("CostModelsMC", "CostModelsMC_strict", expect_ok=False, workers=2)
-            R.design("CostModelsMC", "CostModelsMC_fracceil", expect_ok=False, workers=2)
+            RA.design("CostModelsMC", "CostModelsMC_strict", expect_ok=False, workers=2)
+            RA.design("CostModelsMC", "CostModelsMC_fracceil", expect_ok=False, workers=2)
         except BaseException as e:                                      # noqa: BLE001
             design_err.append(e)
             life_ready.set()
 
-    th = threading.Thread(target=_design, daemon=True)
-    th.start()
+    def _design_models() -> None:
+        try:
+            # vacuity guard: every Grow action is taken (small all-model configuration with coverage on)
+            RB.design("CostModelsMC", "CostModelsMC_cov", workers=4, coverage=True,
+                      require_cov=[f"CostModelsMC!{a}" for a in grow + ["GrowK13"]])
+            for cfg in (QUICK_DESIGN if tier == "quick" else THOROUGH_DESIGN):
+                RB.design("CostModelsMC", cfg, workers=8, timeout=6000)
+        except BaseException as e:                                      # noqa: BLE001
+            design_err.append(e)
+
+    threads = [threading.Thread(target=_design_life, daemon=True), threading.Thread(target=_design_models, daemon=True)]
+    for th in threads:
+        th.start()
 
     # 2. the real functions ------------------------------------------------------------------------
     ids = real.ids()
@@ -722,8 +734,8 @@ def run(tier: str, seed: int, replay=None) -> int:
         if not part:
             raise tlc.MachineryError("CostLifeMC dump contains no maximal history")
         lscen += part
-        if maxlen == 3 and tier != "quick":       # diana's own key style, on the histories that ask diana
-            lscen += [dict(sc, style="diana") for sc in part if any(a.get("m") == "diana_latency" for a in sc["actions"])]
+        if maxlen == 3 and tier != "quick":       # descriptions that also carry diana's own key, on the histories that ask diana
+            lscen += [dict(sc, style="both") for sc in part if any(a.get("m") == "diana_latency" for a in sc["actions"])]
     ltraces = [execute(real, sc) for sc in lscen]
     R.extra["histories_on_shared_description"] = len(lscen)
     R.extra["evaluations_in_histories"] = sum(_n_points(sc) for sc in lscen)
@@ -732,13 +744,18 @@ def run(tier: str, seed: int, replay=None) -> int:
     ex = next(i for i, sc in enumerate(lscen) if sc["actions"][0].get("m") == "diana_latency" and sc["actions"][1].get("f") == "a")
     R.sample({"scenario": {k: lscen[ex][k] for k in ("l", "style", "init", "actions")}, "observed": ltraces[ex]["ev"]})
 
-    th.join()
+    for th in threads:
+        th.join()
     if design_err:
         raise design_err[0]
-    lverdicts = R.validate("CostModelsTrace", "CostModelsTrace", ltraces, lscen, nontrivial=_nontrivial, key=_key,
-                           label="histories on one shared description", workers=8, chunk=30000)
-    verdicts = R.validate("CostModelsTrace", "CostModelsTrace", traces, scen, nontrivial=_nontrivial, key=_key,
-                          label="real cost functions", workers=8, chunk=600)
+    for X in (RA, RB):
+        R.states += X.states
+        R.transitions += X.transitions
+        R.design_runs += X.design_runs
+    allv = R.validate("CostModelsTrace", "CostModelsTrace", traces + ltraces, scen + lscen, nontrivial=_nontrivial, key=_key,
+                      label="real cost functions: axis chains / tables + histories on one shared description",
+                      workers=8, chunk=40000)
+    verdicts, lverdicts = allv[:len(traces)], allv[len(traces):]
     R.extra["corrupted_traces_rejected"] = _self_test(traces + ltraces, verdicts + lverdicts)
     R.evaluations = n_pts
     R.exhaustive = False
